@@ -59,6 +59,23 @@ def fe_text(ev):
     return "grpc#%d.disconnect" % ev[1]
 
 
+def conn_key(k):
+    """Coq connection key: websocket connection c -> 2c, gRPC Observe call g -> 2g+1"""
+    return 2 * int(k[1:]) + (1 if k[0] == "g" else 0)
+
+
+def fe_coq(ev):
+    """front-end event -> Sys/FrontEnd.v fe_op term"""
+    import c17
+    op = ev[0]
+    ex = lambda e: "None" if is_garbage(e) else "(Some %s)" % c17.cexpr(e)
+    if op == "update":
+        return "(FeUpdate %s)" % ex(ev[1])
+    if op in ("wssub", "gobs"):
+        return "(FeSubscribe %d %s (cb_of None))" % (conn_key(("w%d" if op == "wssub" else "g%d") % ev[1]), ex(ev[2]))
+    return "(FeHangup %d)" % conn_key(("w%d" if op == "wsclose" else "g%d") % ev[1])
+
+
 def fe_map(events, resub_closes):
     """front-end history -> (engine history, per front-end event: list of engine-event indices, connections).
     connections: key -> dict(ids, mode, garbage, cancelled, kind)"""
@@ -217,16 +234,16 @@ def coq_case(cid, c, o, resub_closes):
             if vals:
                 return None, "%s has no subscription but received %r" % (k, items)
             continue
-        terms.append("{| f_ids := [%s]; f_mode := %d; f_vals := [%s]; f_ended := %d |}" % ("; ".join(str(i) for i in cn["ids"]), cn["mode"], "; ".join(vals), ended))
-    return "  {| fc_id := %d; fc_h := [%s]; fc_acks := [%s]; fc_status := %s;\n     fc_conns := [%s] |}" % (
-        cid, "; ".join(c17.ev_coq(e) for e in h), "; ".join(acks), status, ";\n       ".join(terms)), None
+        terms.append("{| f_key := %d; f_ids := [%s]; f_mode := %d; f_vals := [%s]; f_ended := %d |}" % (conn_key(k), "; ".join(str(i) for i in cn["ids"]), cn["mode"], "; ".join(vals), ended))
+    return "  {| fc_id := %d; fc_fe := [%s];\n     fc_h := [%s]; fc_acks := [%s]; fc_status := %s;\n     fc_conns := [%s] |}" % (
+        cid, "; ".join(fe_coq(e) for e in c["events"]), "; ".join(c17.ev_coq(e) for e in h), "; ".join(acks), status, ";\n       ".join(terms)), None
 
 
 def evaluate(name, items):
     """items: [(cid, term)] -> {cid: code} via Coq"""
     if not items:
         return {}, None
-    body = ["From Coq Require Import List ZArith.", "From Arrai Require Import Sys.Engine Proofs.EngineP Check.C17Check Check.C17FeCheck.",
+    body = ["From Coq Require Import List ZArith.", "From Arrai Require Import Sys.Engine Sys.FrontEnd Proofs.EngineP Check.C17Check Check.C17FeCheck.",
             "Import ListNotations.", "Open Scope Z_scope.", "Definition cases : list fecase := [",
             ";\n".join(t for _, t in items), "].\nDefinition R := Eval vm_compute in fe_report cases.\nPrint R."]
     rc, so, se = coq_eval(name, "\n".join(body))
@@ -272,7 +289,8 @@ def judge(cases, outs, resub_open, tag):
             verdicts[c["id"]] = ("stale", "the connection survives a re-subscribe: the open finding %s no longer reproduces" % SIG_RESUB)
         else:
             verdicts[c["id"]] = ("bad", why or {1: "loop state or answers differ from the engine model on the mapped history",
-                                                2: "some connection's log differs from the engine model on the mapped history"}.get(res.get(c["id"]), "?"))
+                                                2: "some connection's log differs from the engine model on the mapped history",
+                                                3: "gen/c17fe.py fe_map disagrees with the Gallina fe_map / fe_ids (Sys/FrontEnd.v) on this front-end history"}.get(res.get(c["id"]), "?"))
     return verdicts, None
 
 
